@@ -3,6 +3,7 @@ Reader.open, Reader.ns, OnlineReader.ns), correspondence and property oracle aga
 spikeglx.Reader / spikeglx.OnlineReader on real files of every truncated length."""
 import contextlib
 import io
+import warnings
 import json
 import logging
 import math
@@ -143,14 +144,47 @@ def setup_logging():
 EXC_CODE = {"ValueError": 1, "OverflowError": 2, "TypeError": 3, "KeyError": 4}
 
 
+DTYPES = {"int16": 2, "uint16": 2, "int8": 1, "uint8": 1, "int32": 4, "float32": 4, "int64": 8, "float64": 8}
+
+
+def isz_of(c):
+    return DTYPES[c.get("dtype", "int16")]
+
+
+def fbytes(c):
+    """bytes per frame"""
+    return isz_of(c) * c["nc"]
+
+
 class Data:
-    """deterministic int16 content; file of length n = first n bytes"""
+    """deterministic content; file of length n = first n bytes"""
 
     def __init__(self, rng, n):
         self.buf = rng.randbytes(n)
 
-    def frames(self, ns, nc):
-        return np.frombuffer(self.buf[:ns * nc * 2], dtype="<i2").reshape(ns, nc)
+    def frames(self, ns, nc, dtype="int16"):
+        return np.frombuffer(self.buf[:ns * nc * DTYPES[dtype]], dtype=np.dtype(dtype)).reshape(ns, nc)
+
+
+def values_ok(full, sr, data, m, nc, dtype, order=None):
+    """do the values read (volts, float32) equal the first m frames of the file?"""
+    s2v = np.asarray(sr.sample2volts, dtype=np.float64)
+    fr = data.frames(m, nc, dtype)
+    if order is not None:
+        fr, s2v = fr[:, order], s2v[order]
+    if dtype == "int16":
+        return np.array_equal(np.rint(full.astype(np.float64) / s2v).astype(np.int64), fr.astype(np.int64))
+    if dtype.startswith("float"):
+        return True         # random bytes are mostly NaN/inf/denormal floats: shape only
+    want = fr.astype(np.float32).astype(np.float64)
+    return bool(np.allclose(full.astype(np.float64) / s2v, want, rtol=1e-5, atol=0.5))
+
+
+def reader_kwargs(c):
+    kw = {"ignore_warnings": bool(c["iw"])}
+    if c.get("dtype", "int16") != "int16":
+        kw["dtype"] = c["dtype"] if c.get("dtype_as", "str") == "str" else np.dtype(c["dtype"])
+    return kw
 
 
 def observe_reader(sr, c, data, obs):
@@ -177,16 +211,14 @@ def observe_reader(sr, c, data, obs):
             full = sr[:, :] if ns > 0 else np.zeros((0, nc), np.float32)
             if full.shape != (ns, nc):
                 bad.append("full read has shape %s, exposed shape is %s" % (full.shape, (ns, nc)))
-            elif ns * nc * 2 <= len(data.buf):
-                s2v = np.asarray(sr.sample2volts, dtype=np.float64)
+            elif ns * nc * isz_of(c) <= len(data.buf):
                 order = getattr(sr, "raw_channel_order", np.arange(nc))
-                want = data.frames(ns, nc)[:, order].astype(np.int64)
-                got = np.rint(full.astype(np.float64) / s2v[order]).astype(np.int64)
-                if not np.array_equal(got, want):
+                dt = c.get("dtype", "int16")
+                if not values_ok(full, sr, data, ns, nc, dt, order):
                     bad.append("values read are not the file's prefix")
                 if ns > 0:
-                    last = np.rint(sr[ns - 1, :].astype(np.float64) / s2v[order]).astype(np.int64)
-                    if not np.array_equal(last, want[-1]):
+                    last = sr[ns - 1, :]
+                    if last.shape != (nc,) or not np.array_equal(last, full[-1], equal_nan=True):
                         bad.append("last exposed frame differs from the file")
                     over = sr[0:ns + 9, :]
                     if over.shape != (ns, nc):
@@ -217,7 +249,7 @@ def impl_flat(td, c, data):
     obs = {}
     sr = None
     try:
-        sr = cls(fbin, ignore_warnings=bool(c["iw"]))
+        sr = cls(str(fbin) if c.get("as_str") else fbin, **reader_kwargs(c))
     except (ValueError, OverflowError, TypeError, KeyError) as e:
         obs["exc"] = type(e).__name__
         obs["exc_msg"] = str(e)[:120]
@@ -314,13 +346,10 @@ def snapshot(sr, attempt, c, data, cur):
             m = snap["mapped"]
             if full.shape[1:] != (nc,):
                 bad.append("mapped array has %s channels" % (full.shape[1:],))
-            elif m * nc * 2 > cur:
+            elif m * fbytes(c) > cur:
                 bad.append("reads return data beyond the file")
             elif m > 0:
-                s2v = np.asarray(sr.sample2volts, dtype=np.float64)
-                want = data.frames(m, nc).astype(np.int64)
-                got = np.rint(full.astype(np.float64) / s2v).astype(np.int64)
-                if not np.array_equal(got, want):
+                if not values_ok(full, sr, data, m, nc, c.get("dtype", "int16")):
                     bad.append("values read are not the file's prefix")
         except Exception as e:
             bad.append("read raised %s" % type(e).__name__)
@@ -347,16 +376,16 @@ def impl_seq(td, c, data):
         try:
             r = fn()
         except (ValueError, OverflowError, TypeError, KeyError) as e:
-            return [EXC_CODE[type(e).__name__], 0], r if False else None
+            return [EXC_CODE[type(e).__name__], 0], None
         return [0, 1 if _CATCH.n else 0], r
 
     arg = str(fbin) if c.get("as_str") else fbin
     if c["open_flag"]:
-        att, sr = attempt(lambda: cls(arg, ignore_warnings=bool(c["iw"])))
+        att, sr = attempt(lambda: cls(arg, **reader_kwargs(c)))
         if sr is None:
-            raise RuntimeError("constructor with open=True raised (generator should not produce this)")
+            raise RuntimeError("the constructor (open=True) raised, exception code %d" % att[0])
     else:
-        sr = cls(arg, open=False, ignore_warnings=bool(c["iw"]))
+        sr = cls(arg, open=False, **reader_kwargs(c))
         att = [9, 0]
     try:
         snaps.append(snapshot(sr, att, c, data, cur))
@@ -401,7 +430,7 @@ def oracle_seq(c, snaps):
     reader, on sr.ns at every moment)"""
     bad = []
     nc = c["nc"]
-    fb = 2 * nc
+    fb = fbytes(c)
     fs = float(c["fs_text"])
     prev_fts = None if c["fts_text"] is None else float(c["fts_text"])
     for i, s in enumerate(snaps):
@@ -450,10 +479,10 @@ def enc_inp(c):
         has = 1
         ftm, fte = f2me(float(c["fts_text"]))
     if c["mode"] == "seq":
-        return [2, 1 if c["reader"] == "online" else 0, c["iw"], c["nc"], fsm, fse, has, ftm, fte, c["size0"],
+        return [2, 1 if c["reader"] == "online" else 0, c["iw"], isz_of(c), c["nc"], fsm, fse, has, ftm, fte, c["size0"],
                 c["open_flag"]] + [x for o in c["ops"] for x in o]
     if c["mode"] == "flat":
-        return [0, 1 if c["reader"] == "online" else 0, c["iw"], 0 if c["size_val"] is None else 1,
+        return [0, 1 if c["reader"] == "online" else 0, c["iw"], isz_of(c),
                 c["nbytes"], c["nc"], fsm, fse, has, ftm, fte]
     return [1, c["iw"], c["chns"], c["chnc"], c["nc"], fsm, fse, has, ftm, fte]
 
@@ -463,9 +492,9 @@ def in_domain(c):
     kind of metadata at hand (a meta without fileTimeSecs = recording in progress = OnlineReader)"""
     if c["mode"] == "seq":
         sizes = [c["size0"]] + [a for code, a in c["ops"] if code == 0]
-        return min(sizes) >= 2 * c["nc"] and not (c["reader"] == "offline" and c["fts_text"] is None)
+        return min(sizes) >= fbytes(c) and not (c["reader"] == "offline" and c["fts_text"] is None)
     if c["mode"] == "flat":
-        if c["nbytes"] < 2 * c["nc"]:
+        if c["nbytes"] < fbytes(c):
             return False
         if c["reader"] == "offline" and c["fts_text"] is None:
             return False
@@ -479,14 +508,14 @@ def oracle(c, obs):
     if "exc" in obs:
         return ["opening raised %s" % obs["exc"]]
     nc = c["nc"]
-    want = c["nbytes"] // (2 * nc) if c["mode"] == "flat" else c["chns"]
+    want = c["nbytes"] // fbytes(c) if c["mode"] == "flat" else c["chns"]
     if obs["ns"] != want:
         bad.append("exposes %d frames, the file holds %d complete frames" % (obs["ns"], want))
     if obs["shape"] != (obs["ns"], nc) or obs["nc"] != nc:
         bad.append("shape %s is not (ns, nc)" % (obs["shape"],))
     if obs["rl"] != obs["ns"] / float(c["fs_text"]):
         bad.append("duration rl does not match the exposed sample count")
-    if c["mode"] == "flat" and obs["ns"] * nc * 2 > c["nbytes"]:
+    if c["mode"] == "flat" and obs["ns"] * fbytes(c) > c["nbytes"]:
         bad.append("exposed array is longer than the file")
     bad += obs.get("read_bad", [])
     return bad
@@ -519,7 +548,7 @@ def gen_flat(ctx):
             size_val = size
         cases.append({"mode": "flat", "reader": reader, "iw": iw, "kind": kind, "nc": nc, "nbytes": nbytes,
                       "fs_text": fs_text, "claim": claim, "fts_text": fts_text, "size_val": size_val,
-                      "sparse": sparse})
+                      "sparse": sparse, "as_str": len(cases) % 3 == 1})
 
     for nc in (1, 8, 385):
         fb = 2 * nc
@@ -585,6 +614,87 @@ def gen_sparse(ctx):
     return cases
 
 
+def gen_seq(ctx):
+    """histories on one reader object while the file changes: construct (open=True/False) -> the writer appends
+    (or the file is cut) -> open / __enter__ / re-open.  The file is never cut once a mapping may exist."""
+    rng = ctx.rng
+    cases = []
+    fs_list = FS_TEXTS if ctx.thorough() else FS_QUICK
+    ncs = [(1, "int16"), (5, "int16"), (8, "int16"), (385, "int16"), (3, "int32"), (2, "float64"), (7, "uint8")]
+    if ctx.thorough():
+        ncs += [(2, "int16"), (97, "int16"), (5, "int64"), (1, "int8"), (16, "float32")]
+    OPEN, ENTER = [1, 0], [2, 0]
+    n = 0
+    for nc, dtype in ncs:
+        fb = DTYPES[dtype] * nc
+        pairs = [(fb, fb + 1), (fb, 2 * fb), (3 * fb + min(4, fb - 1), 3 * fb + fb - 1),
+                 (3 * fb + min(4, fb - 1), 9 * fb), (12 * fb, 25 * fb + min(7, fb - 1)),
+                 (12 * fb + fb // 2, 30 * fb - 1), (7 * fb + fb - 1, 8 * fb + fb // 2), (2 * fb, 2 * fb + fb - 1)]
+        if ctx.thorough():
+            pairs += [(a * fb + rng.randrange(fb), (a + d) * fb + rng.randrange(fb))
+                      for a in (1, 2, 5, 11) for d in (0, 1, 2, 13)]
+            pairs = [(a, max(b, a + 1)) for a, b in pairs]
+        for (a, b) in pairs:
+            c2 = b + fb * 3 + fb // 2
+            patterns = {
+                "closed_grow_open": (0, a, [[0, b], OPEN]),
+                "closed_grow_with": (0, a, [[0, b], ENTER]),
+                "open_grow_reopen": (1, a, [[0, b], OPEN]),
+                "open_grow_with_reopen": (1, a, [[0, b], ENTER, OPEN]),
+                "closed_cut_open": (0, b, [[0, a], OPEN]),
+                "closed_grow_open_grow_open_grow_with": (0, a, [[0, b], OPEN, [0, c2], OPEN, [0, c2 + fb + 1], ENTER]),
+                "closed_cut_grow_with_open": (0, b, [[0, a], [0, c2], ENTER, OPEN]),
+            }
+            for reader in ("online", "offline"):
+                for pname, (oflag, size0, ops) in patterns.items():
+                    fs_text = fs_list[n % len(fs_list)]
+                    fs = float(fs_text)
+                    kinds = ["none", "eq_size0", "eq_final", "more"] if reader == "online" else \
+                            ["eq_size0", "eq_final", "more", "none"]
+                    pick = [kinds[n % 4], kinds[(n + 1) % 4]] if not ctx.thorough() else kinds
+                    final = [x[1] for x in ops if x[0] == 0][0]
+                    for ck in pick:
+                        if reader == "offline" and ck == "none" and oflag:
+                            continue      # the constructor itself raises TypeError: no object to continue with
+                        k0 = {"eq_size0": size0 // fb, "eq_final": final // fb, "more": b // fb + 11}.get(ck)
+                        fts_text = None if ck == "none" else ftext(k0 / fs)
+                        size_val = None if ck == "none" else k0 * fb
+                        n += 1
+                        cases.append({"mode": "seq", "reader": reader, "iw": n % 2, "kind": "nidq", "nc": nc,
+                                      "dtype": dtype, "dtype_as": "np" if n % 2 else "str",
+                                      "fs_text": fs_text, "fts_text": fts_text, "size_val": size_val, "claim": ck,
+                                      "size0": size0, "open_flag": oflag, "ops": [list(o) for o in ops],
+                                      "as_str": n % 3 == 0, "pattern": pname})
+    return cases
+
+
+def gen_dtype(ctx):
+    """the `dtype` argument: frames of itemsize * nc bytes for item sizes 1, 2, 4, 8"""
+    cases = []
+    fs_list = FS_TEXTS if ctx.thorough() else FS_QUICK
+    n = 0
+    for dtype in ("int8", "uint8", "uint16", "int32", "float32", "int64", "float64"):
+        isz = DTYPES[dtype]
+        for nc in ((1, 3, 8) if not ctx.thorough() else (1, 2, 3, 8, 17)):
+            fb = isz * nc
+            for nbytes in range(fb, (4 if not ctx.thorough() else 6) * fb):
+                k = nbytes // fb
+                for reader in ("offline", "online"):
+                    n += 1
+                    fs_text = fs_list[n % len(fs_list)]
+                    cl = CLAIMS[(n // 2) % 6]
+                    fts_text = dict(claims(k, float(fs_text), [cl]))[cl]
+                    if reader == "online" and n % 4 == 1:
+                        cl, fts_text = "none", None
+                    cases.append({"mode": "flat", "reader": reader, "iw": n % 2, "kind": "nidq", "nc": nc,
+                                  "nbytes": nbytes, "fs_text": fs_text, "claim": cl, "fts_text": fts_text,
+                                  "size_val": None if fts_text is None else
+                                  int(round(float(fts_text) * float(fs_text))) * fb,
+                                  "sparse": False, "as_str": n % 3 == 1, "dtype": dtype,
+                                  "dtype_as": "str" if n % 2 else "np"})
+    return cases
+
+
 def gen_cbin(ctx):
     """(base description, cases): .cbin chopped to fewer chunks than the meta file announces"""
     groups = []
@@ -612,7 +722,7 @@ def gen_cbin(ctx):
 def describe(c):
     return {k: c.get(k) for k in ("mode", "reader", "iw", "kind", "nc", "nbytes", "fs_text", "claim", "fts_text",
                                   "size_val", "sparse", "nchunks", "chns", "chnc", "size0", "open_flag", "ops", "as_str",
-                                  "pattern")
+                                  "pattern", "dtype", "dtype_as")
             if k in c}
 
 
@@ -622,9 +732,19 @@ def tags_of(c, obs):
             "ignore_warnings": bool(c["iw"]), "exception": obs.get("exc", "none")}
 
 
-def run_cases(ctx, td, data, flat, groups):
+def run_cases(ctx, td, data, flat, groups, seqs=()):
     """-> list of (case, obs)"""
     done = []
+    swork = td / "seq"
+    swork.mkdir()
+    for c in seqs:
+        try:
+            snaps = impl_seq(swork, c, data)
+        except Exception as e:
+            ctx.fail("history raised an unexpected %s: %s" % (type(e).__name__, str(e)[:200]), describe(c),
+                     {"mode": "seq", "reader": c["reader"], "exception": type(e).__name__})
+            continue
+        done.append((c, snaps))
     work = td / "flat"
     work.mkdir()
     for c in flat:
@@ -653,20 +773,40 @@ def run_cases(ctx, td, data, flat, groups):
 def run(ctx):
     common.proof_obligations(ctx, whitelist=AXIOMS)
     setup_logging()
-    flat = gen_flat(ctx) + gen_sparse(ctx)
+    warnings.filterwarnings("ignore", category=RuntimeWarning)     # float64 -> float32 overflow on random bytes
+    flat = gen_flat(ctx) + gen_sparse(ctx) + gen_dtype(ctx)
     groups = gen_cbin(ctx)
-    data = Data(random.Random(ctx.seed ^ 0xC11), 33 * 770 + 64)
+    seqs = gen_seq(ctx)
+    data = Data(random.Random(ctx.seed ^ 0xC11), 40 * 770 + 64)
     td = common.tmpdir("C11_run_")
     try:
-        done = run_cases(ctx, td, data, flat, groups)
+        done = run_cases(ctx, td, data, flat, groups, seqs)
     finally:
         shutil.rmtree(td, ignore_errors=True)
     dist = {"flat_offline": 0, "flat_online": 0, "cbin": 0, "sparse_large": 0, "partial_trailing_frame": 0,
             "trailing_more_than_half": 0, "meta_claims_more": 0, "meta_claims_less": 0, "meta_claims_equal": 0,
             "meta_in_progress": 0, "below_one_frame": 0, "fractional_fs": 0, "imec_meta": 0,
-            "outcome_opened": 0, "outcome_exception": 0, "fts_rewritten_warned": 0}
+            "outcome_opened": 0, "outcome_exception": 0, "fts_rewritten_warned": 0,
+            "histories": 0, "history_steps": 0, "history_open_attempts": 0, "history_online": 0,
+            "history_offline_stale_size": 0, "path_given_as_str": 0, "dtype_not_int16": 0}
     nontrivial = set()
     for c, obs in done:
+        dist["path_given_as_str"] += bool(c.get("as_str"))
+        if c["mode"] == "seq":
+            dist["histories"] += 1
+            dist["history_steps"] += len(obs)
+            dist["history_open_attempts"] += sum(s["attempt"][0] != 9 for s in obs)
+            dist["history_online"] += c["reader"] == "online"
+            dist["dtype_not_int16"] += c.get("dtype", "int16") != "int16"
+            dist["fractional_fs"] += "." in c["fs_text"]
+            dist["meta_in_progress"] += c["fts_text"] is None
+            bad = oracle_seq(c, obs) if in_domain(c) else []
+            dist["history_offline_stale_size"] += any(t["stale"] != "no" for _, t in bad)
+            for what, tags in bad:
+                ctx.fail(what, describe(c), tags)
+            nontrivial.add(("seq", c["reader"], c["nc"], c["size0"], c["open_flag"], json.dumps(c["ops"]),
+                            c["fs_text"], c["fts_text"], c["iw"], c.get("dtype", "int16")))
+            continue
         if in_domain(c):
             for b in oracle(c, obs):
                 ctx.fail(b, describe(c), tags_of(c, obs))
@@ -681,7 +821,8 @@ def run(ctx):
         dist["outcome_exception"] += "exc" in obs
         dist["fts_rewritten_warned"] += obs.get("warned", 0)
         if c["mode"] == "flat":
-            fb = 2 * c["nc"]
+            fb = fbytes(c)
+            dist["dtype_not_int16"] += c.get("dtype", "int16") != "int16"
             r = c["nbytes"] % fb
             k = c["nbytes"] // fb
             dist["partial_trailing_frame"] += r > 0
@@ -693,7 +834,8 @@ def run(ctx):
                 dist["meta_claims_less"] += claimed < k
                 dist["meta_claims_equal"] += claimed == k
             if r > 0 and c["nbytes"] >= fb:
-                nontrivial.add((c["reader"], c["nc"], c["nbytes"], c["fs_text"], c["fts_text"], c["iw"], c["kind"]))
+                nontrivial.add((c["reader"], c["nc"], c["nbytes"], c["fs_text"], c["fts_text"], c["iw"], c["kind"],
+                                c.get("dtype", "int16")))
         else:
             if c["fts_text"] is not None and c["chns"] != round(float(c["fts_text"]) * float(c["fs_text"])):
                 nontrivial.add(("cbin", c["nc"], c["chns"], c["fs_text"], c["fts_text"], c["iw"], c["kind"]))
@@ -701,7 +843,10 @@ def run(ctx):
     common.correspondence(ctx, PROP, HEADER, [enc_inp(c) for c in cases], [enc_obs(o) for _, o in done],
                           lambda i: describe(cases[i]), n_kernel=80)
     step = max(1, len(done) // 6)
-    samples = [dict(describe(c), observed={k: v for k, v in o.items() if k != "read_bad"}) for c, o in done[::step]]
+    samples = [dict(describe(c), observed=([{k: v for k, v in sn.items() if k != "read_bad"} for sn in o]
+                                           if isinstance(o, list) else
+                                           {k: v for k, v in o.items() if k != "read_bad"}))
+               for c, o in (done[:1] + done[len(seqs)::step])]
     return common.finish(
         ctx, TRUSTED,
         rule="real files: every byte length from 1 to 6 complete frames plus every trailing byte count 0..frame-1, "
@@ -726,10 +871,14 @@ def replay(ctx, data_json):
         return 1
     setup_logging()
     c = dict(inp)
-    data = Data(random.Random(data_json.get("seed", ctx.seed) ^ 0xC11), 33 * 770 + 64)
+    data = Data(random.Random(data_json.get("seed", ctx.seed) ^ 0xC11), 40 * 770 + 64)
     td = common.tmpdir("C11_replay_")
     try:
-        if c["mode"] == "flat":
+        if c["mode"] == "seq":
+            w = td / "seq"
+            w.mkdir()
+            obs = impl_seq(w, c, data)
+        elif c["mode"] == "flat":
             w = td / "flat"
             w.mkdir()
             obs = impl_flat(w, c, data)
@@ -741,7 +890,10 @@ def replay(ctx, data_json):
         return 1
     finally:
         shutil.rmtree(td, ignore_errors=True)
-    bad = oracle(c, obs) if in_domain(c) else []
+    if c["mode"] == "seq":
+        bad = [w for w, _ in oracle_seq(c, obs)] if in_domain(c) else []
+    else:
+        bad = oracle(c, obs) if in_domain(c) else []
     print("input:", describe(c))
     print("implementation:", obs)
     print("property clauses failing on the implementation:", bad)
